@@ -128,8 +128,14 @@ class NsHandler:
     def get_fqname(self, title, defaultns=0):
         return self.splitname(title, defaultns=defaultns)[2]
 
-    def maybe_capitalize(self, tag):
-        if self.capitalize:
+    def maybe_capitalize(self, tag, nsnum=None):
+        capitalize = self.capitalize
+        if nsnum is not None:
+            # a namespace may override the site-wide setting (the Gadget namespaces are case-sensitive)
+            case = self.siteinfo["namespaces"].get(str(nsnum), {}).get("case")
+            if case is not None:
+                capitalize = case == "first-letter"
+        if capitalize:
             first = tag[0:1].upper()
             # a letter without a one-character upper case (sharp s) is left alone, as MediaWiki does
             if len(first) == 1:
@@ -155,7 +161,7 @@ class NsHandler:
             nsnum = defaultns
 
         suffix = suffix.strip("\u200e\u200f")
-        suffix = self.maybe_capitalize(suffix)
+        suffix = self.maybe_capitalize(suffix, nsnum)
         if prefix:
             prefix += ":"
 
